@@ -178,14 +178,10 @@ theorem scriptName_w (n : Nat) : scriptName { P with nodes := N' } n = scriptNam
   exact wname P N' h i
 
 theorem helpCommands_w (n : Nat) :
-    (helpCommands { P with nodes := N' } (({ P with nodes := N' } : Prog).node n)).Perm (helpCommands P (P.node n)) := by
+    (helpCommands (({ P with nodes := N' } : Prog).node n)).Perm (helpCommands (P.node n)) := by
   unfold helpCommands
   rw [whelpName P N' h n]
-  have : (fun kv : Str × Nat => (({ P with nodes := N' } : Prog).node kv.2).name != (P.node n).helpName) =
-      (fun kv : Str × Nat => (P.node kv.2).name != (P.node n).helpName) := by
-    funext kv; rw [wname P N' h kv.2]
-  rw [this]
-  exact (((h n).cmds.symm).filter _).map _
+  exact ((h n).cmds.symm).filter _
 
 omit h in
 theorem insertByName_w (x : Nat) (l : List Nat) :
@@ -245,9 +241,9 @@ theorem find_perm_unique {α} (p : α → Bool) (l l' : List α) (hp : l.Perm l'
       have hcl : c ∈ l := hp.mem_iff.mpr (List.mem_of_find?_eq_some hf')
       rw [hu a hal c hcl ha hc]
 
-/-- the sub-commands listed by help have distinct names (a command's name is its key) -/
+/-- the command table of the level has distinct keys (it is a Go map; `AddChildCommand` refuses a duplicate) -/
 def CmdNamesDistinct (P : Prog) (n : Nat) : Prop :=
-  ((helpCommands P (P.node n)).map fun c => (P.node c).name).Nodup
+  ((helpCommands (P.node n)).map (·.1)).Nodup
 
 theorem helpCommandList_w (n : Nat) (hd : CmdNamesDistinct P n) :
     helpCommandList ext { P with nodes := N' } (({ P with nodes := N' } : Prog).node n) =
@@ -258,28 +254,22 @@ theorem helpCommandList_w (n : Nat) (hd : CmdNamesDistinct P n) :
   rw [hc.isEmpty_eq]
   split
   · rfl
-  · have hname : (fun c => (({ P with nodes := N' } : Prog).node c).name) = fun c => (P.node c).name := by
-      funext c; exact wname P N' h c
-    rw [hname, sortStrs_perm_eq _ _ (hc.map _)]
+  · rw [sortStrs_perm_eq _ _ (hc.map _)]
     congr 1
     apply flatMap_congr'
     intro name _
-    have hfind : (helpCommands { P with nodes := N' } (({ P with nodes := N' } : Prog).node n)).find?
-          (fun c => (({ P with nodes := N' } : Prog).node c).name == name) =
-        (helpCommands P (P.node n)).find? (fun c => (P.node c).name == name) := by
-      have : (fun c => (({ P with nodes := N' } : Prog).node c).name == name) = fun c => (P.node c).name == name := by
-        funext c; rw [wname P N' h c]
-      rw [this]
+    have hfind : (helpCommands (({ P with nodes := N' } : Prog).node n)).find? (fun kv => kv.1 == name) =
+        (helpCommands (P.node n)).find? (fun kv => kv.1 == name) := by
       symm
       apply find_perm_unique _ _ _ hc.symm
       intro x hx y hy px py
-      have ex : (P.node x).name = name := by simpa using px
-      have ey : (P.node y).name = name := by simpa using py
+      have ex : x.1 = name := by simpa using px
+      have ey : y.1 = name := by simpa using py
       exact inj_of_nodup_map _ _ hd x hx y hy (ex.trans ey.symm)
     rw [hfind]
-    cases (helpCommands P (P.node n)).find? (fun c => (P.node c).name == name) with
+    cases (helpCommands (P.node n)).find? (fun kv => kv.1 == name) with
     | none => rfl
-    | some c => simp only; rw [wdesc P N' h c]
+    | some kv => simp only; rw [wdesc P N' h kv.2]
 
 theorem helpOptionList_w (n : Nat) :
     helpOptionList ext { P with nodes := N' } (({ P with nodes := N' } : Prog).node n) =
